@@ -53,7 +53,7 @@ DESCRIPTION = {
     ],
     "required_probes": {
         "quick": ["rejected_open_then_read", "nested_rejected_then_outer_read", "exit_while_other_in_scope", "ident_reused",
-                  "falsy_override_masks_env", "switch_in___call__", "switch_in___enter__", "switch_in___exit__", "switch_in___getattr__"],
+                  "falsy_override_masks_env", "switch_in___call__", "switch_in___enter__", "switch_in___exit__", "switch_in___getattr__", "insertion_sweep", "crowd"],
         "thorough": ["rejected_open_then_read", "nested_rejected_then_outer_read", "exit_while_other_in_scope", "ident_reused",
                      "ident_reused_after_rejected_open", "falsy_override_masks_env", "read_straddles_env_flip"],
     },
@@ -193,6 +193,7 @@ def gen(seed, ident_base=1000) -> dict:
         "line": g.random() < 0.85,
         "gran": g.choice(["line", "line", "instr"]),
         "final_probe": True,
+        "crowd": (g.choice([64, 70, 100]) if g.random() < 0.008 else 0),
     }
 
 
@@ -219,6 +220,29 @@ def saturation_specs(seed: int, per_program: int) -> list[dict]:
     return out
 
 
+def gen_sweep(seed, ident_base=1000) -> dict:
+    g = stream(seed, "gen-sweep")
+    swarm = {"bad": True, "nested": True, "assign": False, "raise": True, "env": False, "reuse": False}
+    victim = _prog(g, swarm, g.choice([1, 1, 2]))
+    intruder = _prog(g, swarm, g.choice([1, 2, 3]))
+    if g.random() < 0.6:  # both sides mostly talk about the same key: that is where they can collide
+        key = g.choice(KEYS)
+        val = lambda: g.choice(BOOL_VALUES if key in BOOL_KEYS else STR_VALUES)
+        victim = [["scope", [[key, val()]], [["read", key]], g.random() < 0.3], ["read", key]][: g.choice([1, 2])]
+        intruder = [["scope", [[key, val()]], [["read", key]], g.random() < 0.3], ["read", key]]
+        if g.random() < 0.5:
+            intruder.reverse()
+    nops = sum(1 for _ in intruder)
+    spec = {"seed": seed, "ident_base": ident_base, "env0": ({"DEFAULT_SCHEMA": "envs"} if g.random() < 0.5 else {}), "operator": [],
+            "threads": [{"prog": victim, "after": None, "reuse": False}, {"prog": intruder, "after": None, "reuse": False}],
+            "sched": "sticky", "line": True, "gran": g.choice(["instr", "instr", "line"]), "final_probe": True,
+            "sweep": {"victim": 0, "intruder": 1, "prefix": g.randrange(0, max(1, nops))}}
+    if g.random() < 0.15:
+        spec["crowd"] = g.choice([40, 64, 70, 100])
+        spec["gran"] = "line"
+    return spec
+
+
 def plan(seed: int, tier: str) -> list[dict]:
     master = stream(seed, "c15-plan")
     nruns = {"quick": 14_000, "thorough": 400_000}[tier]
@@ -233,6 +257,9 @@ def plan(seed: int, tier: str) -> list[dict]:
             specs.append(gen(rs, ident_base=1000 * (k + 1)))
         # a handful of hash seeds: zygote start is 1-3 s, so bucket them
         units.append({"key": {"hash_seed": hs % 8}, "specs": specs, "wall_s": 120.0})
+    nsw = {"quick": 60, "thorough": 3000}[tier]
+    for b in range(nsw // 6):
+        units.insert(b * 2, {"key": {"hash_seed": 0}, "specs": [gen_sweep(master.randrange(2 ** 48), ident_base=1000 * (k + 1)) for k in range(6)], "wall_s": 300.0})
     sat = saturation_specs(seed, {"quick": 400, "thorough": 2000}[tier])
     for i in range(0, len(sat), 400):
         units.append({"key": {"hash_seed": 0}, "specs": sat[i:i + 400], "wall_s": 120.0})
@@ -318,6 +345,11 @@ def run_one(spec: dict) -> dict:
     _apply_env(spec["env0"])
     if spec.get("schedule") is not None:
         chooser = ReplayChooser(spec["schedule"])
+    elif spec.get("insert_at") is not None:
+        from ..sched import InsertAtChooser
+
+        ia = spec["insert_at"]
+        chooser = InsertAtChooser(ia["victim"], ia["k"] if ia["k"] >= 0 else 10 ** 9, ia["intruder"], ia.get("prefix", 0))
     else:
         chooser = make_chooser(spec["sched"], stream(spec["seed"], "sched"), horizon=300)
     sched = Scheduler(chooser, max_steps=100_000, hang_s=60.0)
@@ -480,6 +512,8 @@ def run_one(spec: dict) -> dict:
             w.violate("open_refused", f"final probe thread (ident {t.ident}) could not open a scope after everything was closed: {e}", t.idx)
         read(t, "DEFAULT_SCHEMA", "final_read")
 
+    crowd_n = int(spec.get("crowd") or 0)
+    crowd_state = {"inside": 0, "actives_done": 0}
     base = spec.get("ident_base", 1000)
     sim_threads = []
     idents = []
@@ -497,6 +531,8 @@ def run_one(spec: dict) -> dict:
             def body():
                 t = current()
                 w.scopes[t.idx] = None
+                if crowd_n:
+                    sched.block_until(lambda: crowd_state["inside"] >= crowd_n)
                 if th.get("after") is not None and th.get("reuse"):
                     w.probe("ident_reused")
                     if sim_threads[th["after"]].ctx.get("ever_bad"):
@@ -508,6 +544,7 @@ def run_one(spec: dict) -> dict:
                 t.ctx["after_bad"] = False
                 for k in (KEYS if spec.get("final_probe") else []):
                     read(t, k, "end_read")
+                crowd_state["actives_done"] += 1
             return body
 
         wait = [sim_threads[after]] if after is not None and after < i else []
@@ -515,6 +552,22 @@ def run_one(spec: dict) -> dict:
         wait += [sim_threads[j] for j in range(i) if idents[j] == ident and sim_threads[j] not in wait]
         sim_threads.append(sched.spawn(f"t{i}", mk(), ident=ident, wait_for=wait))
     nworkers = len(sim_threads)
+    for ci in range(crowd_n):
+        # a crowd of other callers that simply sit inside scopes of their own for the whole run
+        def cbody(ci=ci):
+            t = current()
+            with no_preempt():
+                pass
+            with cfg(DEFAULT_SCHEMA=f"crowd{ci}"):
+                w.scopes[t.idx] = {"DEFAULT_SCHEMA": f"crowd{ci}"}
+                crowd_state["inside"] += 1
+                sched.block_until(lambda: crowd_state["actives_done"] >= nworkers)
+                if ci % 16 == 0:
+                    read(t, "DEFAULT_SCHEMA", "crowd_read")
+            w.scopes[t.idx] = None
+        sched.spawn(f"crowd{ci}", cbody, ident=base + 600 + ci)
+    if crowd_n:
+        w.probe("crowd")
     if spec.get("operator"):
         def op_body():
             do_ops(current(), spec["operator"], False)
@@ -575,6 +628,7 @@ def run_one(spec: dict) -> dict:
 
     op_events = [[e[1], e[2], e[3], e[4]] for e in w.events]
     res = {
+        "victim_yields": getattr(sched.chooser, "count", None),
         "verdict": "violation" if w.violation else "ok",
         "digest": short(op_events, 24),
         "line_digest": sched.trace_digest.hexdigest()[:24],
@@ -619,11 +673,42 @@ def _fault_counts(w, spec):
     return c
 
 
+def run_sweep(spec: dict) -> dict:
+    """Systematic single insertion (sched.InsertAtChooser): the intruder's next operation is inserted at EVERY yield
+    point k of the victim thread's program; each k is a complete simulated run with fresh thread identifiers."""
+    first = None
+    k, total = -1, None
+    steps = 0
+    nsub = 0
+    while total is None or k < total:
+        sp = dict(spec)
+        sp["insert_at"] = dict(spec["sweep"], k=k)
+        sp["ident_base"] = spec.get("ident_base", 1000) + 1000 * (nsub % 50)
+        sp.pop("sweep", None)
+        r = run_one(sp)
+        nsub += 1
+        steps += r["steps"]
+        if total is None:
+            total = min(r.get("victim_yields") or 0, 2500)
+            first = r
+        if r["verdict"] == "violation":
+            r["violation"]["message"] += f" [systematic insertion at yield point {k} of {total} of thread {spec['sweep']['victim']}]"
+            r["steps"] = steps
+            return r
+        k += 1
+    first["steps"] = steps
+    first["probes"] = dict(first["probes"], insertion_sweep=1)
+    first["extra"] = {"sweep_subruns": nsub}
+    first["digest"] = short(["sweep", spec["threads"], spec["sweep"], spec.get("crowd")], 24)
+    first["log_digest"] = digest(["sweep", first["log_digest"], total])
+    return first
+
+
 def execute(arg: dict) -> dict:
     runs = []
     specs = arg["specs"]
     for i, spec in enumerate(specs):
-        r = run_one(spec)
+        r = run_sweep(spec) if spec.get("sweep") else run_one(spec)
         if i == 0 and r["verdict"] == "ok":
             r["sample"] = {"threads": spec["threads"], "operator": spec["operator"], "env0": spec["env0"], "sched": spec["sched"], "steps": r["steps"]}
         runs.append(r)
